@@ -7,8 +7,10 @@ from vlib import Infra, log
 BUILD = [("./app/cl/", "cl")]
 
 
-def record(ctx, tag, histories, ops, drain_every=1000000, style="mixed"):
-    binary = vlib.build_test("./app/cl/", "cl")
+def record(ctx, tag, histories, ops, drain_every=1000000, style="mixed", binary=None):
+    # binary: a harness binary the caller has already built from ./app/cl/ (C07 builds one with an
+    # extra overlay file for its behaviour replay and records with the same binary)
+    binary = binary or vlib.build_test("./app/cl/", "cl")
     d = vlib.scratch(tag + "-rec")
     trace = os.path.join(d, "cl.ndjson")
     vlib.run_test(binary, "TestRecord", {"VERIF_OUT": trace, "VERIF_SEED": ctx.seed, "VERIF_HISTORIES": histories,
